@@ -47,11 +47,24 @@ pub struct StructLit {
     pub line_hint: String,
     pub in_loop: bool,
     pub in_closure: bool,
+    /// the `range` field's expression, if any
+    pub range_expr: Option<syn::Expr>,
+    /// environment at the point of construction (only kept for literals with a range)
+    pub env: BTreeMap<String, Var>,
+    /// local definitions visible at that point: ident -> initialiser
+    pub defs: BTreeMap<String, syn::Expr>,
+    /// compact text of the whole literal
+    pub text: String,
 }
 
 pub struct Flow {
     pub env: BTreeMap<String, Var>,
     pub lits: Vec<StructLit>,
+    pub defs: BTreeMap<String, syn::Expr>,
+    /// calls `path(args)` seen in the action with the environment at that point: (callee text, args, env)
+    pub calls: Vec<(String, Vec<syn::Expr>, BTreeMap<String, Var>, BTreeMap<String, syn::Expr>)>,
+    /// assignments to a field of a top-level binding: (binding, field, value expr)
+    pub field_assigns: Vec<(String, String, syn::Expr)>,
     in_loop: bool,
     in_closure: bool,
 }
@@ -83,7 +96,7 @@ impl Flow {
                 env.insert(b.clone(), Var { pos: Some(Pos { lo: (i, 0), hi: (i, usize::MAX), roots: vec![b.clone()] }), unknown: false, direct: true });
             }
         }
-        Flow { env, lits: vec![], in_loop: false, in_closure: false }
+        Flow { env, lits: vec![], defs: BTreeMap::new(), calls: vec![], field_assigns: vec![], in_loop: false, in_closure: false }
     }
 
     pub fn pos_of(&self, e: &syn::Expr) -> (Option<Pos>, bool) {
@@ -162,23 +175,60 @@ impl Flow {
     }
 
     fn collect_lits(&mut self, e: &syn::Expr) {
-        // struct literals directly inside `e` (not inside nested blocks/closures handled separately)
-        let mut found: Vec<StructLit> = vec![];
-        let in_loop = self.in_loop;
-        let in_closure = self.in_closure;
-        sm::for_each_expr(e, |x| {
-            if let syn::Expr::Struct(s) = x {
+        struct V<'f> {
+            flow: &'f Flow,
+            closure_depth: usize,
+            found: Vec<StructLit>,
+            calls: Vec<(String, Vec<syn::Expr>)>,
+        }
+        impl<'a, 'f> syn::visit::Visit<'a> for V<'f> {
+            fn visit_expr_closure(&mut self, c: &'a syn::ExprClosure) {
+                self.closure_depth += 1;
+                syn::visit::visit_expr_closure(self, c);
+                self.closure_depth -= 1;
+            }
+            fn visit_expr_call(&mut self, c: &'a syn::ExprCall) {
+                self.calls.push((sm::tsc(&c.func), c.args.iter().cloned().collect()));
+                syn::visit::visit_expr_call(self, c);
+            }
+            fn visit_expr_struct(&mut self, s: &'a syn::ExprStruct) {
                 let ty = s.path.segments.last().map(|p| p.ident.to_string()).unwrap_or_default();
                 let mut fields = vec![];
+                let mut range_expr = None;
                 for fv in &s.fields {
                     let name = sm::ts(&fv.member).trim_start_matches("r#").to_string();
-                    let (p, u) = self.pos_of(&fv.expr);
+                    let (p, u) = self.flow.pos_of(&fv.expr);
+                    if name == "range" {
+                        range_expr = Some(fv.expr.clone());
+                    }
                     fields.push((name, p, u, sm::tsc(&fv.expr)));
                 }
-                found.push(StructLit { ty, fields, line_hint: String::new(), in_loop, in_closure: in_closure || false });
+                let keep = range_expr.is_some();
+                self.found.push(StructLit {
+                    ty,
+                    fields,
+                    line_hint: String::new(),
+                    in_loop: self.flow.in_loop,
+                    in_closure: self.flow.in_closure || self.closure_depth > 0,
+                    range_expr,
+                    env: if keep { self.flow.env.clone() } else { BTreeMap::new() },
+                    defs: if keep { self.flow.defs.clone() } else { BTreeMap::new() },
+                    text: sm::tsc(s),
+                });
+                syn::visit::visit_expr_struct(self, s);
             }
-        });
+        }
+        use syn::visit::Visit;
+        let mut v = V { flow: self, closure_depth: 0, found: vec![], calls: vec![] };
+        v.visit_expr(e);
+        let found = v.found;
+        let calls = v.calls;
         self.lits.extend(found);
+        for (f, a) in calls {
+            let env = self.env.clone();
+            let defs = self.defs.clone();
+            self.calls.push((f, a, env, defs));
+        }
     }
 
     pub fn run_expr(&mut self, e: &syn::Expr) {
@@ -219,6 +269,7 @@ impl Flow {
                 } else if let syn::Expr::Field(f) = &*a.left {
                     // x.field = value : x now also derives from value
                     if let Some(id) = sm::as_ident(sm::peel(&f.base)) {
+                        self.field_assigns.push((id.clone(), sm::ts(&f.member), (*a.right).clone()));
                         let (pos, _) = self.pos_of(&a.right);
                         if let Some(v) = self.env.get_mut(&id) {
                             v.pos = Pos::join(&v.pos, &pos);
@@ -279,6 +330,11 @@ impl Flow {
                             other => self.collect_lits(other),
                         }
                         self.bind_pat(&l.pat, Some(&init.expr));
+                        let mut ids = vec![];
+                        sm::pat_idents(&l.pat, &mut ids);
+                        if ids.len() == 1 {
+                            self.defs.insert(ids[0].clone(), (*init.expr).clone());
+                        }
                     } else {
                         self.bind_pat(&l.pat, None);
                     }
